@@ -33,7 +33,8 @@ var kwSpaces = []string{" ", "\t", "\n", "  ", " \n ", "\r\n"}
 
 var c08PosNames = []string{"print", "if", "elseif", "set", "for-seq", "include-with", "filter-arg", "function-arg", "macro-arg", "array-elem", "hash-value",
 	"for-seq-default-of-null", "for-seq-default-of-undefined", "for-seq-conditional", "for-seq-filtered-list",
-	"filter-arg-evaluated-twice-in-a-loop", "include-with-only", "include-with-next-to-pairs-named-like-variables"}
+	"filter-arg-evaluated-twice-in-a-loop", "include-with-only", "include-with-next-to-pairs-named-like-variables",
+	"for-seq-two-filters", "for-seq-three-filters"}
 
 // c08Wrap builds the observer templates around the expression text x (of type typ). The
 // model side of each position is a fixed function of the expression's value.
@@ -97,6 +98,11 @@ func c08Wrap0(pos int, x string) map[string]string {
 	case 17:
 		// pairs named like variables the expression may read must not be visible to it
 		return map[string]string{"main": "{% include 'inc' with {'a': 'A', 'b': 'B', 's': 'S', 'v': " + x + ", 'xs': 'X', 'm': 'M', 'c': 'C'} %}", "inc": "({{ v }})"}
+	// the for sequence as a chain in which every filter matters
+	case 18:
+		return map[string]string{"main": "{% for i in [0, " + x + "]|reverse|slice(0, 1) %}<{{ i }}>{% else %}EMPTY{% endfor %}"}
+	case 19:
+		return map[string]string{"main": "{% for i in [" + x + "]|merge([0])|reverse|slice(1, 1) %}<{{ i }}>{% else %}EMPTY{% endfor %}"}
 	}
 	panic("pos")
 }
@@ -115,7 +121,7 @@ func c08Expect(pos int, v interface{}) (string, error) {
 	switch pos {
 	case 3:
 		return "[" + s + "]", nil
-	case 4, 11, 12, 13, 14:
+	case 4, 11, 12, 13, 14, 18, 19:
 		return "<" + s + ">", nil
 	case 5, 16, 17:
 		return "(" + s + ")", nil
@@ -246,7 +252,7 @@ func c08Classify(c C08Case) (bool, []string) {
 	return nt, classes
 }
 
-const c08Rule = "type-directed random expression trees (depth<=5) over ints, strings, booleans, lists, maps, attribute/index access, unary, all binary operators of the table, ?:, filters, functions and spies, each printed minimally and fully parenthesised with random inter-token whitespace and placed in one of 18 syntactic positions (the for sequence also as a filter chain on a null / undefined base, a conditional and a filtered list); containers of `in` include a 60-element list and range(-10, 49); variable names include pairs that collide under common string hashes (Aa/BB, x1/wP, AO/B0); one case in five runs with the engine in debug mode; non-trivial = >=2 binary operators of different precedence, or a unary/conditional operator next to a binary one, or a non-print position; distinct by (context, tree, position)"
+const c08Rule = "type-directed random expression trees (depth<=5) over ints, strings, booleans, lists, maps, attribute/index access, unary, all binary operators of the table, ?:, filters, functions and spies, each printed minimally and fully parenthesised with random inter-token whitespace and placed in one of 20 syntactic positions (the for sequence also as a filter chain on a null / undefined base, a conditional, a filtered list and chains of two and three filters that all matter); containers of `in` include a 60-element list and range(-10, 49); variable names include pairs that collide under common string hashes (Aa/BB, x1/wP, AO/B0); one case in five runs with the engine in debug mode; non-trivial = >=2 binary operators of different precedence, or a unary/conditional operator next to a binary one, or a non-print position; distinct by (context, tree, position)"
 
 func TestC08Expr(t *testing.T) {
 	r := NewRec(t, "C08", c08Rule)
